@@ -26,7 +26,7 @@ def main():
                 if p not in claimed:
                     res[p] = 'not-claimed'
                     continue
-                env = dict(os.environ, VERIF_REPO=scratch + '/repo')
+                env = dict(os.environ, VERIF_REPO=scratch + '/repo', VERIF_EVIDENCE_DIR=scratch + '/evidence', VERIF_REPLAY_DIR=scratch + '/replays')
                 pr = subprocess.run([ROOT + '/check', p, '--tier', 'quick', '--repo', scratch + '/repo'], capture_output=True, text=True, env=env)
                 viol = [l for l in pr.stdout.split('\n') if l.startswith('VIOLATION')]
                 res[p] = {'rc': pr.returncode, 'violations': viol[:4], 'tail': pr.stdout[-300:] if pr.returncode not in (0, 1) else ''}
